@@ -368,6 +368,28 @@ def change_during_backlog_retry_family():
                     yield sc
 
 
+def stale_snapshot_in_pass_family():
+    """FOUR instances: in one outgoing pass of A the first peer (B) is due a full transfer and cannot be reached, the second
+    (C) is in contact and has a backlog, the last (D) is due a full transfer and can be reached -- and the engine publishes a
+    change while the send to B is in progress.  C's SYNC takes the change off the queue; what D is handed is the state A
+    holds WHEN D IS SERVED (a snapshot taken earlier in the pass lacks the change, and nothing would ever bring it to D:
+    D is in contact from then on).  Short periods; the change advances, completes or halts the run."""
+    names = ['A', 'B', 'C', 'D']
+    for during in ('in_A_2', 'in_A_9', 'in_A_2;in_A_3', 'in_A_0'):
+        for b_link in ('down', 'dup'):
+            ops = ['sync', 'in A 0', 'sync', 'down A B', 'down A D']
+            for _ in range(3):                                   # C stays in contact, B and D fall silent (9 s > resync period 8)
+                ops += ['tick 3', 'pass A', 'del A C']
+            ops += ['down A C', 'in A 1', 'pass A', 'up A C', 'up A D']      # a backlog for C (and failed full transfers to B, D)
+            if b_link == 'dup':
+                ops += ['up A B', 'dup A B']
+            ops += ['tick 2', f'passi A send:B {during}', 'del A B', 'del A C', 'del A D', 'del A C', 'del A D']
+            for _ in range(6):                                   # healthy links, pings only: nobody is owed a full transfer any more
+                ops += ['tick 2', 'pass A', 'del A B', 'del A C', 'del A D', 'pass C', 'del C A', 'pass D', 'del D A']
+            ops += ['same A C', 'same A D', 'heal']
+            yield {'names': names, 'phens': CONFLICT, 'cache': 1000, 'periods': dict(SMALL_PERIODS), 'ops': ops}
+
+
 def racing_engine_family():
     """the same run is finished (or advanced) on a peer and, at the same moment, locally: the peer's notification is being
     applied by the distributed thread while the engine thread processes the datum that does the same to the local copy
